@@ -79,7 +79,17 @@ func TestVtracePublicPaths(t *testing.T) {
 		if round == 1 {
 			key = make([]byte, 16)
 		}
-		vtMark(emit("NewCipher", "16-byte key"))
+		keyShape := "16-byte key"
+		if round%2 == 1 {
+			// the key is a sub-slice at an odd offset of a larger buffer (a field of a parsed record): what serves the
+			// calls must not depend on where the arguments lie
+			off := []int{1, 3, 4, 7, 9, 12, 15}[(round/2+int(hk.Seed()))%7]
+			kb := make([]byte, 48)
+			copy(kb[off:], key)
+			key = kb[off : off+16]
+			keyShape = fmt.Sprintf("16-byte key at offset %d of a larger buffer", off)
+		}
+		vtMark(emit("NewCipher", keyShape))
 		blk, err := NewCipher(key)
 		if err != nil || blk == nil {
 			continue // a refused 16-byte key is C05's business; this monitor judges what serves the calls that are served
@@ -96,6 +106,9 @@ func TestVtracePublicPaths(t *testing.T) {
 			{"dst-right-before-src", buf[32:48], buf[48:64]},
 			{"long-slices", make([]byte, 40), buf[:48]},
 			{"dst-with-spare-capacity", make([]byte, 16, 64), buf[64:80]},
+			{"src-at-odd-address", make([]byte, 16), buf[65:81]},
+			{"dst-at-odd-address", make([]byte, 40)[3:19], buf[:16]},
+			{"both-at-odd-addresses", make([]byte, 40)[7:23], buf[71:87]},
 		}
 		for off := 1; off < 16; off += 1 + round%3 {
 			shapes = append(shapes, shp{fmt.Sprintf("out-of-contract:dst=src+%d", off), buf[32+off : 48+off], buf[32:48]})
@@ -159,6 +172,17 @@ func TestVtracePublicPaths(t *testing.T) {
 				pre := make([]byte, 5, 5+pl+16)
 				vtMark(emit(c.name+".Seal", fmt.Sprintf("dst=prefix5+room,pt=%d", pl)))
 				try(func() { a.Seal(pre, nonce, pt, aad) })
+				{
+					// every argument at an odd address inside a larger buffer
+					n2, p2, a2, d2 := rng.Bytes(len(nonce) + 3)[3:], rng.Bytes(pl + 1)[1:], rng.Bytes(len(aad) + 5)[5:], make([]byte, 7, 7+pl+16+8)
+					vtMark(emit(c.name+".Seal", fmt.Sprintf("all-arguments-at-odd-addresses,pt=%d,aad=%d", pl, len(aad))))
+					var c3 []byte
+					try(func() { c3 = a.Seal(d2, n2, p2, a2) })
+					if len(c3) > 7 {
+						vtMark(emit(c.name+".Open", fmt.Sprintf("all-arguments-at-odd-addresses,ct=%d", len(c3)-7)))
+						try(func() { a.Open(make([]byte, 3, 3+pl+8), n2, c3[7:], a2) })
+					}
+				}
 				if len(ct) > 0 {
 					bad := append([]byte{}, ct...)
 					bad[rng.Intn(len(bad))] ^= 0x20
